@@ -92,8 +92,14 @@ func H_C06_required(v *V) {
 		// -b (root) and -c (one) supplied as one cluster after the command word
 		cluster = true
 	}
+	// an empty-string argument right after the last command word (it is an
+	// ordinary remaining argument and must not stop the parse)
+	emptyWord := v.Choice(2) == 1
 	var argv []string
 	add := func(level int) {
+		if emptyWord && ((level == 0 && path == 0) || (level == 1 && path == 1) || (level == 2 && path == 2) || (level == 3 && path == 3)) {
+			argv = append(argv, "")
+		}
 		for _, t := range lvlToks[level] {
 			if cluster && (t == "-b" || t == "-c") {
 				continue
